@@ -127,6 +127,45 @@ for spec in (['circle', 1.2], ['cann', 0.4, 1.2], ['ellipse', 2.5, 1.2, 0.6], ['
     check('before_spec', bs[0] == spec[0] and len(bs) == len(spec) and all(b != v for b, v in zip(bs[1:], spec[1:]))
           and not (R.make_aperture(bs, pos) == a1), spec)
 
+# 6. C02 storage representations: the oracle's values are exactly what the handed-over object holds; layouts are what
+#    their names say; the bright variants really separate a float64 accumulation from one in the image dtype
+from mcphot.props import c02  # noqa: E402
+for tier in ('quick', 'thorough'):
+    for rep in c02.reprs(tier):
+        for dv in c02.dvariants(rep):
+            for shape in ((1, 1), (3, 3), (4, 5)):
+                d, e, dl, el = c02.stored_images(shape, 0, rep, dv)
+                dt, _, layout = rep.partition(':')
+                for obj, lst in ((d, dl), (e, el)):
+                    arr = np.asarray(obj)
+                    check('repr.values', arr.shape == shape and np.array_equal(arr.astype(np.float64), np.array(lst))
+                          and np.all(np.isfinite(np.array(lst))) and all(type(v) is float for row in lst for v in row), (rep, dv, shape))
+                    if layout != 'list':
+                        check('repr.dtype', obj.dtype == np.dtype(dt) and obj.dtype.byteorder == np.dtype(dt).byteorder, (rep, obj.dtype))
+                        # every integer / float16 / float32 value converts to float64 and back without change
+                        check('repr.exact', np.array_equal(np.array(lst).astype(obj.dtype), arr), (rep, dv))
+                check('repr.layout', {'': lambda a: a.flags.c_contiguous, 'F': lambda a: a.flags.f_contiguous and (a.flags.c_contiguous == (min(shape) == 1)),
+                                      'strided': lambda a: a.base is not None and (not a.flags.c_contiguous or shape == (1, 1)) and a.strides[1] == 2 * a.itemsize,
+                                      'list': lambda a: isinstance(a, list) and isinstance(a[0], list)}[layout](d), (rep, shape))
+                check('repr.error-nonnegative', np.all(np.array(el) >= 0), (rep, dv))
+                if shape == (3, 3) and dv != 'generic':
+                    a = np.asarray(d)
+                    nat = a.dtype.newbyteorder('=')
+                    pair = a.ravel()[4:6]
+                    with np.errstate(all='ignore'):
+                        narrow = float(np.add.reduce(pair.astype(nat), dtype=nat)) if nat.kind != 'b' else float(pair[0] | pair[1])
+                    wide = float(pair[0]) + float(pair[1])
+                    rest = float(a.ravel()[3])
+                    with np.errstate(all='ignore'):
+                        narrow3 = float(np.add.reduce(a.ravel()[3:6].astype(nat)[[1, 0, 2]], dtype=nat)) if nat.kind != 'b' else 1.0
+                    if dv == 'pile' and not (nat.kind == 'f' and nat.itemsize == 8):
+                        check('repr.pile-overflows', narrow != wide and np.isfinite(wide), (rep, narrow, wide))
+                    if dv == 'cancel':
+                        # (numpy reduces float16 with a float32 accumulator: only the float32 image is required to lose the faint pixel)
+                        check('repr.cancel', wide == 0.0 and (nat.kind != 'f' or nat.itemsize != 4 or narrow3 != rest), (rep, narrow3, rest))
+check('repr.classes', [c02.repr_class(r) for r in ('<f4', '>f2', '>f8', '<i8', 'u1', 'bool', '<f8:F', '<f4:strided')]
+      == ['float-narrow', 'float-narrow', 'float64-byteswapped', 'signed-int', 'unsigned-int', 'bool', 'float64-F', 'float-narrow-strided'])
+
 if fails:
     print(f'{len(fails)} FAILURES')
     for f in fails[:20]:
